@@ -222,9 +222,9 @@ def round_tt(tt_cores,R,eps,Rmax,is_ttm=False):
         
         U, S, V = SVD(core_now)
         if S.is_cuda:
-            r_now = min([Rmax[i],rank_chop(S.detach().cpu().numpy(),_norm2(S).detach().cpu().numpy()*eps)])
+            r_now = min([Rmax[i],rank_chop(S.detach().cpu().numpy(),float(eps)*_norm2(S).detach().cpu().numpy())])
         else:
-            r_now = min([Rmax[i],rank_chop(S.detach().numpy(),_norm2(S).detach().numpy()*eps)])
+            r_now = min([Rmax[i],rank_chop(S.detach().numpy(),float(eps)*_norm2(S).detach().numpy())])
     
         U = U[:,:r_now]
         S = S[:r_now]
